@@ -71,6 +71,15 @@ def _version_fields(parts):
     return dict(zip(('major', 'minor', 'micro', 'hfrev'), vals))
 
 
+def _version_tuple(parts):
+    """the version a robot name parses back to, as a tuple: (major, minor or None) plus the micro and the
+    hotfix revision when the name has them (0 is a component like any other)"""
+    vals = [int(p) for p in parts]
+    if len(vals) == 1:
+        return (vals[0], None)
+    return tuple(vals)
+
+
 def _scan_ticket(label):
     """Leading ticket key <PROJECT>-<digits>, PROJECT = [A-Za-z0-9_]+.
 
@@ -253,6 +262,11 @@ def observe(name, with_matches=True):
            'dest': bool(branch.can_be_destination)}
     for attr in ATTRS.get(cls, ()):
         got[attr] = getattr(branch, attr, '<missing>')
+    if cls in ('IntegrationBranch', 'QueueBranch', 'QueueIntegrationBranch'):
+        try:
+            got['version_t'] = tuple(branch.version_t)
+        except Exception as err:                  # pragma: no cover
+            got['version_t'] = 'EXC:' + type(err).__name__
     if cls == 'QueueBranch':
         dst = branch.dst_branch
         got['queue_dst'] = getattr(dst, 'name', repr(dst))
@@ -345,7 +359,7 @@ def check_roundtrip(pr, ver, src):
     dst = SimpleNamespace(version=ver)
     # same expression as integration.py
     wname = "w/{}/{}".format(dst.version, real_src)
-    exp_w = dict(fields, cls='IntegrationBranch', version=ver,
+    exp_w = dict(fields, cls='IntegrationBranch', version=ver, version_t=_version_tuple(parts),
                  feature_branch=src, prefix=real_src.prefix,
                  label=real_src.label,
                  jira_issue_key=real_src.jira_issue_key,
@@ -374,7 +388,7 @@ def check_roundtrip(pr, ver, src):
 
 def check_roundtrip_q(ver):
     parts = _scan_version(ver, (1, 2, 3, 4))
-    exp = dict(_version_fields(parts), cls='QueueBranch', version=ver)
+    exp = dict(_version_fields(parts), cls='QueueBranch', version=ver, version_t=_version_tuple(parts))
     try:
         qbranch = gwfq.get_queue_branch(
             SimpleNamespace(git=SimpleNamespace(repo=FAKE)),
